@@ -131,6 +131,18 @@ CHECKS = {
              "by take(); append unions; every parsed move of every game is appended. With C08 (re-run) equal keys imply equal legal moves. Corpus replay is NOT decided.",
         design_ref="DESIGN.md section 4, C16",
         note=TB_COMMON + " env!/include_bytes! make seed and data file compile-time dependencies; ciborium round-trips the map."),
+    "C14": dict(
+        category="proof",
+        technique="static analysis: call-graph scoped panic-site inventory (MIR asserts, documented-panicking callees, explicit panics) discharged by an "
+                  "inter-procedural interval analysis with branch refinement and newtype invariants (checked at every construction site, closed world), "
+                  "callee-specific rules (radix, regex capture groups parsed from the literal, guarded slices), and a reviewed-site table",
+        text="Proof relative to 7 individually reviewed sites: all 65 panic sites in the 74 workspace functions reachable from the FEN/SAN readers and the UCI text "
+             "layer (including Search::spawn, its closures and wait_cancel) are excluded for every input string: overflow/bounds/division asserts by intervals under "
+             "verified invariants (Square<=63, Rank/File<=7, PieceIndex<=14), ArrayMap indexing by the ArrayKey bound rule, regex group indexing by analysing the "
+             "pattern literal, the rest by named reasons. Dev-profile MIR is the superset (overflow checks on), so the release profile is covered as well.",
+        design_ref="DESIGN.md section 4, C14",
+        note=TB_COMMON + " The regex crate never panics on a haystack; allocation failure and closed stdout are outside the input quantifier; chess-logic crashes on "
+             "syntactically valid but illegal positions (no king) are explicitly not decided. tables/reviewed_sites.json is part of the trusted base."),
 }
 
 NOT_BUILT_REASON = "check not built yet (see DESIGN.md for the plan)"
